@@ -53,3 +53,8 @@ package xsub
 //@   ghost was = s.closed at call:Lock#1
 //@   ensures was ==> result == protocol.ErrClosed
 //@   ensures !was ==> isnil(result) && s.closed && closed(s.closeQ)
+// ---- generated wake-on-close contracts (from `govc sites -select`) ----
+//@ func (*socket).RecvMsg
+//@   before select#1 assert selwaits(s.closeQ)
+//@
+// ---- end generated wake-on-close contracts ----
